@@ -416,9 +416,9 @@ static void run_wipe(const fc_desc* d, unsigned di, uint64_t seed, const sk_mask
 		unsigned r = sk_below(&pr, 10);
 		if (r < 3 || N == 0)
 			k = 0;
-		else if (r < 8)
+		else if (r < 7)
 			k = 1 + (long)sk_below(&pr, (uint32_t)N), pers = (int)sk_below(&pr, 2);
-		if (r >= 8 && d->bad)
+		if (r >= 7 && d->bad)
 			want_bad = (int)sk_below(&pr, 12);
 		snap_overflow = 0;
 		sk_heap_on_release(on_release);
@@ -429,7 +429,29 @@ static void run_wipe(const fc_desc* d, unsigned di, uint64_t seed, const sk_mask
 			ctx_init(ps, ss[s]);
 			d->gen(&C);
 			if (want_bad >= 0 && d->bad(&C, want_bad, exp) == 0)
-				want_bad = -1, (void)0;
+			{
+				/* index beyond this descriptor's list: fold it into the list (6, 3, 1 variants) */
+				static const int fold[3] = { 6, 3, 1 };
+				int f;
+				for (f = 0; f < 3; ++f)
+				{
+					sk_heap_reset(fill);
+					ctx_init(ps, ss[s]);
+					d->gen(&C);
+					if (d->bad(&C, want_bad % fold[f], exp) != 0)
+					{
+						want_bad %= fold[f];
+						break;
+					}
+				}
+				if (f == 3)
+				{
+					want_bad = -1;
+					sk_heap_reset(fill);
+					ctx_init(ps, ss[s]);
+					d->gen(&C);
+				}
+			}
 			sk_wipe_normalise();
 			cursnap = s, nsn[s] = 0, snapfill[s] = 0;
 			sk_heap_arm();
@@ -669,7 +691,7 @@ static void run(uint64_t seed, const sk_mask* mask, sk_result* out)
 			continue;
 		if (mode == 1 && !d->bad)
 			continue;
-		if ((d->flags & FC_SLOW) && !only_name && sk_below(&r, 4))
+		if ((d->flags & FC_SLOW) && !only_name && sk_below(&r, mode == 2 ? 2 : 4))
 			continue;
 		break;
 	}
